@@ -8,6 +8,12 @@ COMMON_NOTE = ("Trusted: Coq 8.16.1 kernel (full .vo build, Print Assumptions = 
                "extraction with ExtrOcamlBasic only, ocaml/driver.ml, the Rust harness; the hand-written model is tied "
                "to /repo's source by the differential (correspondence) run of every check, the tables by the translator.")
 CLAIMS = {
+ "C13": ("Coq theorems about the decode loop the derive macro generates, for every field list and every field decoder: any permutation of "
+         "pairwise-distinct tagged groups decodes to the same value (one loop lemma covers declaration order and every permutation), a second "
+         "group for a seen tag is DuplicateTag of that tag, all missing mandatory tags are named (sorted), an unknown tag ends the loop handing "
+         "back itself and everything behind it; the group hypotheses are discharged for a shipped packet. Tie: all permutations up to 5/6 present "
+         "groups (sampled above), a duplicate at every position, every removal subset up to 3, one- and two-byte foreign tags at every group "
+         "boundary, on all shipped types; model vs implementation plus an oracle computed from the layout.", "DESIGN.md section 6, C13"),
  "C01": ("Coq: the <tag><length><data> frame round-trips for every delimiting length style, representable tag and inner codec (general theorem); "
          "value encodings round-trip over their whole domain (C17 theorems); the lift to every well-formed layout is being completed "
          "(theorems named *_partial in Properties/C01.v say what is missing). Tie + decision today: canonical values of all 55 regenerated types "
